@@ -129,9 +129,9 @@ Print Assumptions T_C13_progress.
      UTF-16/32 code unit, the case that used to spin for ever) is answered by the mark (Skip: window
      dropped, output extended by the mark) or by DecodeError, never passed over;
    - the examples below: one cut per scheme evaluated by the kernel.
-   The same-width paths are known NOT to satisfy it: char output of a UTF-8 stream is the raw
-   bytes, and a UTF-16 stream cut after the high surrogate U+DBFF copies that unit to char16_t
-   output (T_C13_truncated_refuted_witness). *)
+   One same-width path is known NOT to satisfy it: char output of a UTF-8 stream is the raw bytes, a
+   cut character passes through without mark or error (second half of
+   T_C13_truncated_example_samewidth; known finding, by design). *)
 Theorem T_C13_truncated_partial : forall K tgt pol mark data e s out,
   K mod 4 = 0 -> 32 <= K -> EInv K data s ->
   is_eof (e_is s) = true -> (e_end s - e_start s) mod unit_size (utf_width e) <> 0 ->
@@ -167,13 +167,15 @@ Example T_C13_truncated_example_utf32 :
 Proof. vm_compute. reflexivity. Qed.
 Print Assumptions T_C13_truncated_example_utf32.
 
-(* same width: U+10FFFF cut between its two UTF-16 units, to char16_t: the lone DBFF is copied and
-   the call reports plain success (strict "< HighSurrogatesEnd" in Utf16::Decode) *)
-Example T_C13_truncated_refuted_witness :
+(* same width: U+10FFFF cut between its two UTF-16 units, to char16_t (the lone U+DBFF used to be
+   copied with plain success: strict "< HighSurrogatesEnd" in Utf16::Decode, repaired) *)
+Example T_C13_truncated_example_samewidth :
   esr_run 32 W16 ThrowError [0xFFFD]%N 100 (stream_of (firstn 6 (with_bom true Utf16le [0x61; 0x10FFFF]%N)) true)
-    = RunDone [ChSuccess; ChEndFile] [0x61; 0xDBFF]%N Utf16le.
-Proof. vm_compute. reflexivity. Qed.
-Print Assumptions T_C13_truncated_refuted_witness.
+    = RunDone [ChDecodeError] [0x61]%N Utf16le /\
+  esr_run 32 W8 Skip [0x3F]%N 100 (stream_of (firstn 6 (with_bom true Utf8 [0x61; 0x20AC]%N)) true)
+    = RunDone [ChSuccess; ChEndFile] [0x61; 0xE2; 0x82]%N Utf8.
+Proof. split; vm_compute; reflexivity. Qed.
+Print Assumptions T_C13_truncated_example_samewidth.
 
 (* ------------------------------------------------------------------ the writer *)
 
